@@ -90,6 +90,9 @@ def run(res, tier, seed):
         A = G.rand_canonical_iset(rng, 7)
         B = G.rand_canonical_iset(rng, 7, coincide=[x for iv in A for x in iv])
         pairs.append((A, B))
+    # translate two thirds of the cases to straddle / lie below t = 0 (buffers are zero-initialised: sign matters)
+    offs = [0, -4 * 4000, -40 * 4000]
+    pairs = [([(s + offs[n % 3], e + offs[n % 3]) for s, e in A], [(s + offs[n % 3], e + offs[n % 3]) for s, e in B]) for n, (A, B) in enumerate(pairs)]
     lines = []
     for A, B in pairs:
         a, b = C.fmt_iset(A), C.fmt_iset(B)
